@@ -128,9 +128,25 @@ def gen_movie(rng, thorough=False, plant_history=False, dense=False):
     # (not below 2^-10: HashKDTree.query adds an ABSOLUTE slack of 1e-7 to the search range, which
     # must stay negligible against the lattice spacing for the candidate relation to be exact)
     scale_pow = rng.choice([0, 0, 0, 0, 0, 0, -10, -8, 10, 20])
+    # fine lattice: every coordinate and the range multiplied by K, then each coordinate moved by
+    # -1/0/+1 fine units.  Pairs that sat exactly at the range now sit a relative 1e-3..1e-4 inside or
+    # outside it (K*R -+ 1..2 units): a range test that is off by a small relative amount, or whose
+    # tolerance grows with the magnitude of the coordinates, decides them differently.  All numbers
+    # stay exactly representable (units of 2^-10 or 2^-8 px, or 1 px).
+    # K <= 256 keeps the smallest possible excess over the range (a transverse offset of one unit at
+    # a range of R_l <= 768 units: relative (1/R_l)^2/2 >= 8e-7, absolute >= 6e-7 px) well above the
+    # 1e-7 slack HashKDTree.query adds to the range (relative for per-axis ranges, absolute else).
+    fine = 0
+    if rng.random() < 0.15:
+        fine = rng.choice([64, 256])
+        frames = [[[c * fine + rng.randint(-1, 1) for c in p] for p in f] for f in frames]
+        sr = [a * fine for a in sr]
+        scale_pow = rng.choice([-10, -8, 0])
     inp = dict(dim=dim, frames=frames, t0=rng.choice([0, 0, 1, 5, 17, -3, -8]), sr=sr, iso=iso,
                scale_pow=scale_pow, default_cols=(rng.random() < 0.3),
                memory=memory, strategy="recursive", entry="link_iter", missing=[])
+    if fine:
+        inp["fine"] = fine
     return inp
 
 
